@@ -18,6 +18,7 @@ CONSTANTS
   MaxL = {maxl}
   LStride = {stride}
   Preambles = {pre}
+  ExtraL = {extra}
 INVARIANT TrackerProperty
 INVARIANT GeneratedIsReceived
 INVARIANT PadFits
@@ -226,11 +227,26 @@ def run(ctx):
     else:
         maxl, stride, pre, sample = 1500, 7, "{0, 1, 2, 3, 8, 16}", 12000
     with open(os.path.join(ctx.rundir, "MC_Fragmentation_run.cfg"), "w") as f:
-        f.write(CFG.format(maxl=maxl, stride=stride, pre=pre))
+        f.write(CFG.format(maxl=maxl, stride=stride, pre=pre, extra="{}"))
     res = core.run_tlc(ctx, "MC_Fragmentation", "MC_Fragmentation_run.cfg", timeout=3000)
     if res.violated:
         ctx.note("design_counterexample", res.violated)
     cfgs = core.parse_printed_json(res, tag="CFG")
+    # the extremes: the longest transmissions each rate / mode can announce (N = 125..127), with and without preambles,
+    # so that header and preamble counters are exercised at the top of their 7- and 8-bit ranges
+    extremes = sorted({n * oct_ - (2 * n if conf else 0) - 4 - d
+                       for oct_ in (12, 18, 24) for conf in (False, True)
+                       for n in ((127,) if ctx.quick else (126, 127)) for d in ((0, oct_ - 3) if ctx.quick else (0, 1, oct_ - 3))})
+    with open(os.path.join(ctx.rundir, "MC_Fragmentation_ext.cfg"), "w") as f:
+        f.write(CFG.format(maxl=0, stride=1, pre="{0, 2, 16}" if ctx.quick else "{0, 1, 2, 16, 64, 128}",
+                           extra="{" + ", ".join(map(str, extremes)) + "}"))
+    res2 = core.run_tlc(ctx, "MC_Fragmentation", "MC_Fragmentation_ext.cfg", timeout=3000)
+    if res2.violated:
+        ctx.note("design_counterexample_extremes", res2.violated)
+    ext = [c for c in core.parse_printed_json(res2, tag="CFG") if c["L"] > 0]
+    ctx.note("extreme_configurations", len(ext))
+    if len(ext) < 30 and not res2.violated:
+        raise core.MachineryError(f"too few extreme configurations printed: {len(ext)}")
     ctx.note("configurations_in_model", len(cfgs))
     if len(cfgs) < 100 and not res.violated:
         raise core.MachineryError(f"too few configurations printed: {len(cfgs)}")
@@ -242,6 +258,7 @@ def run(ctx):
         rest = [c for c in cfgs if not (c["L"] <= 30 and c["p"] <= 1)]
         ctx.rng.shuffle(rest)
         cfgs = keep + rest[:max(0, sample - len(keep))]
+    cfgs += ext
     jobs = [(ctx.seed * 31 + n, c) for n, c in enumerate(cfgs)]
     with Pool(core.NCPU) as pool:
         traces = pool.map(run_cfg, jobs, chunksize=8)
